@@ -15,6 +15,14 @@ def validate_encoded(string):
       "{} is not a valid numeric array string\n".format(repr(string))+
       "(it must be one of [fcsiCSI] followed by a comma-separated list of:"+
       " for f: floats; for csi: signed integers; for CSI: unsigned integers)")
+  subtype = string[0]
+  if subtype != "f":
+    st_range = gfapy.NumericArray.SUBTYPE_RANGE[subtype]
+    for e in string.split(",")[1:]:
+      if not (st_range[0] <= int(e) < st_range[1]):
+        raise gfapy.ValueError(
+          "{} is not a valid numeric array string\n".format(repr(string))+
+          "(the value {} is outside the range of subtype {})".format(e, subtype))
 
 def validate_decoded(numeric_array):
   if isinstance(numeric_array, gfapy.NumericArray):
